@@ -383,6 +383,8 @@ func init() {
 		ip.res.Notes = append(ip.res.Notes, strArg(ip, args[0]))
 		return nil
 	}
+	V["Settle"] = func(ip *Interp, fn *ssa.Function, args []Value) Value { return nil }
+	V["ResetReplay"] = func(ip *Interp, fn *ssa.Function, args []Value) Value { return nil }
 	V["Daemon"] = func(ip *Interp, fn *ssa.Function, args []Value) Value {
 		ip.cur.daemon = true
 		return nil
